@@ -184,7 +184,9 @@ func runConcRound(ctx context.Context, inner storage.Storage, env *vkit.Env, cac
 	}
 	t0.committed.Store(true)
 
-	const putters, getters, putsEach, getsEach = 4, 4, 3, 5
+	const putters, getters, putsEach, maxGets = 4, 4, 3, 24
+	var puttersLeft atomic.Int32
+	puttersLeft.Store(putters)
 	type getObs struct {
 		who        string
 		etag       string
@@ -201,6 +203,7 @@ func runConcRound(ctx context.Context, inner storage.Storage, env *vkit.Env, cac
 		pr := rng.Fork(fmt.Sprintf("putter-%d", p))
 		go func(p int) {
 			defer wg.Done()
+			defer puttersLeft.Add(-1)
 			<-startGate
 			for i := 0; i < putsEach; i++ {
 				who := fmt.Sprintf("p%d-%d-r%d", p, i, round)
@@ -234,7 +237,13 @@ func runConcRound(ctx context.Context, inner storage.Storage, env *vkit.Env, cac
 		go func(g int) {
 			defer wg.Done()
 			<-startGate
-			for i := 0; i < getsEach; i++ {
+			// getters keep reading (with pauses) while puts are in flight, plus two
+			// more reads afterwards; bounded by maxGets
+			after := 0
+			for i := 0; i < maxGets && after < 2; i++ {
+				if puttersLeft.Load() == 0 {
+					after++
+				}
 				who := fmt.Sprintf("g%d-%d", g, i)
 				if gr.Chance(30) {
 					if o, err := mw.HeadObject(ctx, bucket, key, nil); err == nil {
@@ -244,7 +253,7 @@ func runConcRound(ctx context.Context, inner storage.Storage, env *vkit.Env, cac
 						mu.Unlock()
 						if !ok {
 							mu.Lock()
-							fail("conc:head-etag-of-no-version", fmt.Sprintf("HeadObject returned ETag %s size %d which no put of this key ever had", o.ETag, o.Size), nil)
+							fail("conc:value-of-no-version", fmt.Sprintf("HeadObject returned ETag %s size %d which no put of this key ever had", o.ETag, o.Size), nil)
 							mu.Unlock()
 						}
 					}
@@ -296,8 +305,8 @@ func runConcRound(ctx context.Context, inner storage.Storage, env *vkit.Env, cac
 					observed = append(observed, getObs{who: who, etag: o.ETag, size: o.Size, n: n, sha: hex.EncodeToString(h.Sum(nil)[:12]), start: st, end: en})
 				}
 				mu.Unlock()
-				if gr.Chance(30) {
-					time.Sleep(time.Duration(gr.Range(50, 300)) * time.Microsecond)
+				if gr.Chance(70) {
+					time.Sleep(time.Duration(gr.Range(100, 1500)) * time.Microsecond)
 				}
 			}
 		}(g)
@@ -312,16 +321,16 @@ func runConcRound(ctx context.Context, inner storage.Storage, env *vkit.Env, cac
 		detail := map[string]any{"get": ob.who, "returned_etag": ob.etag, "returned_size": ob.size, "body_bytes": ob.n, "body_sha": ob.sha}
 		switch {
 		case t == nil:
-			fail("conc:get-etag-of-no-version", fmt.Sprintf("GetObject returned ETag %s (size %d) which no put of this key ever had", ob.etag, ob.size), detail)
+			fail("conc:value-of-no-version", fmt.Sprintf("GetObject returned ETag %s (size %d) which no put of this key ever had", ob.etag, ob.size), detail)
 		case t.size != ob.size:
-			fail("conc:get-size-not-of-returned-etag", fmt.Sprintf("GetObject returned ETag %s of version %s (size %d) with size %d", ob.etag, t.who, t.size, ob.size), detail)
+			fail("conc:value-of-no-version", fmt.Sprintf("GetObject returned ETag %s of version %s (size %d) with size %d", ob.etag, t.who, t.size, ob.size), detail)
 		case ob.sha != t.sha || int64(ob.n) != t.size:
 			if other := bySha[ob.sha]; other != nil {
 				detail["body_is_version"], detail["metadata_is_version"] = other.who, t.who
 				fail("conc:body-of-other-version", fmt.Sprintf("GetObject returned ETag/size of version %s (%s, %d B) together with the body of version %s (%d B)", t.who, t.etag, t.size, other.who, other.size), detail)
 			} else {
 				detail["metadata_is_version"] = t.who
-				fail("conc:body-of-no-version", fmt.Sprintf("GetObject returned ETag/size of version %s (%s, %d B) with a %d-byte body that is the body of no version (truncated/mixed)", t.who, t.etag, t.size, ob.n), detail)
+				fail("conc:value-of-no-version", fmt.Sprintf("GetObject returned ETag/size of version %s (%s, %d B) with a %d-byte body that is the body of no version (truncated/mixed)", t.who, t.etag, t.size, ob.n), detail)
 			}
 		case !t.committed.Load():
 			fail("conc:body-of-failed-put", fmt.Sprintf("GetObject returned version %s whose put failed", t.who), detail)
@@ -345,13 +354,13 @@ func runConcRound(ctx context.Context, inner storage.Storage, env *vkit.Env, cac
 			if y.Obj != nil && attempts[y.Obj.ETag] != nil {
 				d["inner_current_version"] = attempts[y.Obj.ETag].who
 			}
-			fail("conc:stale-get-after-quiescence:"+ds[0].Field, fmt.Sprintf("after all putters/getters finished, GetObject through the object cache differs from the inner storage in %s: middleware %s, inner %s", fieldsOf(ds), x.brief(), y.brief()), d)
+			fail("conc:stale-after-quiescence", fmt.Sprintf("after all putters/getters finished, GetObject through the object cache differs from the inner storage in %s: middleware %s, inner %s", fieldsOf(ds), x.brief(), y.brief()), d)
 			break
 		}
 		hx := doHead(ctx, mw, bucket.String(), key.String(), nil)
 		hy := doHead(ctx, inner, bucket.String(), key.String(), nil)
 		if ds := diffReads(hx, hy, false); len(ds) > 0 {
-			fail("conc:stale-head-after-quiescence:"+ds[0].Field, fmt.Sprintf("after all putters/getters finished, HeadObject through the object cache differs from the inner storage in %s: middleware %s, inner %s", fieldsOf(ds), hx.brief(), hy.brief()), map[string]any{"differences": ds})
+			fail("conc:stale-after-quiescence", fmt.Sprintf("after all putters/getters finished, HeadObject through the object cache differs from the inner storage in %s: middleware %s, inner %s", fieldsOf(ds), hx.brief(), hy.brief()), map[string]any{"differences": ds})
 			break
 		}
 	}
@@ -549,7 +558,7 @@ func runConcChild(r *vkit.Run, spec concSpec, tag string, timeout time.Duration)
 
 func runC20Concurrent(r *vkit.Run, rp *reporter, rf *replayFile, base *vkit.Rand) {
 	kinds := []string{"safe", "cachebig", "cachefs"}
-	perKind := map[string]int{"safe": r.N(16, 320), "cachebig": r.N(12, 240), "cachefs": r.N(12, 240)}
+	perKind := map[string]int{"safe": r.N(24, 480), "cachebig": r.N(8, 160), "cachefs": r.N(8, 160)}
 	seed := r.Seed
 	if rf != nil {
 		// replay one round: schedules are sampled, so retry and report honestly
